@@ -55,14 +55,20 @@ def make_args_unique(a: ast.Lambda) -> ast.Lambda:
                 mapping = [(a.arg, arg_name()) for a in node.args.args]
                 self._seen_lambda = True
 
-            for old, new in mapping:
+            # Every other kind of parameter keeps its name, and hides an outer one of that name
+            l_args = node.args
+            other_args = l_args.posonlyargs + l_args.kwonlyargs
+            other_args += [a for a in (l_args.vararg, l_args.kwarg) if a is not None]
+            hidden = [(a.arg, a.arg) for a in other_args]
+
+            for old, new in mapping + hidden:
                 self._arg_stack.append((old, new))
 
             r = self.generic_visit(node)
             assert isinstance(r, ast.Lambda)
 
             r.args.args = [ast.arg(arg=new, annotation=None) for old, new in mapping]
-            for arg in node.args.args:
+            for _ in mapping + hidden:
                 self._arg_stack.pop()
 
             return r
